@@ -93,6 +93,13 @@ def gen_cases(rng, tier):
                 for t0 in (0, 137):
                     evs = [(t0 + 700, "R"), (t0 + 1200, "A" if kind == "inv" else "R")] if rel == 0 else ([(t0 + 1200, "A")] if kind == "inv" else [])
                     cases.append(_case("br%d" % n, kind, rel, code, t0, evs, branch=br)); n += 1
+    # a re-send the transport refuses (a transient send error) is one lost response: the transaction goes on absorbing the
+    # retransmissions and answering them until 64*T1
+    for t0 in (0, 137):
+        for code in (200, 404):
+            for evs in ([(t0 + 500, "X"), (t0 + 1500, "R"), (t0 + 3500, "R")], [(t0 + 100, "R"), (t0 + 600, "X"), (t0 + 700, "X"), (t0 + 20000, "R")],
+                        [(t0 + 31000, "X"), (t0 + 31900, "R"), (t0 + 32100, "R")], [(t0 + 1, "X")]):
+                cases.append(_case("xs%d" % n, "ni", 0, code, t0, evs)); n += 1
     nrand = 120 if tier == "quick" else 3000
     for i in range(nrand):
         kind = rng.choice(["ni", "inv"])
@@ -122,6 +129,16 @@ def _toks(impl):
             return None, None
         evs.append((m.group(1), int(m.group(2)), m.group(3)))
     return evs, tsx
+
+
+def model_case(case, impl):
+    # the model sees a refused re-send as a retransmission like any other; its transmission is taken out again in normalize_model
+    return case[:6] + [case[6].replace(":X", ":R")] + case[7:]
+
+
+def normalize_model(case, s):
+    refused = set(int(x.split(":")[0]) for x in case[6].split(",") if x.endswith(":X"))
+    return " ".join(t for t in s.strip().split() if not (t.startswith("S@") and int(t[2:]) in refused))
 
 
 def normalize_impl(case, s):
@@ -163,7 +180,7 @@ def oracle(case, impl):
             return ["non-INVITE: respond() results %r, expected Ok at %d" % (res, t0)]
         # the first request after the window starts a new transaction (the harness layer takes and keeps it, unanswered);
         # what follows are retransmissions of that one and are absorbed by it
-        late = [t for (t, k) in inj if k == "R" and t > t0 + TO][:1]
+        late = [t for (t, k) in inj if k in ("R", "X") and t > t0 + TO][:1]
         if not rel and [t for (t, m) in layer] != late:
             return ["requests surfaced to the layers at %r, expected %r: the first one after the 64*T1 window starts a new transaction" % (layer, late)]
         end = t0 + (0 if rel else TO)
